@@ -34,7 +34,7 @@ Here == At(Docs[doc], path, 1).v
 
 \* tokens that address nothing in an array / anything in a scalar
 BadArrayTokens(n) == { <<45>>, <<45, 49>>, <<48, 49>>, <<43, 49>>, <<32, 49>>, <<49, 95, 48>>, <<49, 46, 48>>,
-                       <<1633>>, <<65297>>, <<97>>, <<>>, <<48, 48>>, <<49, 32>> } \cup { DecText(n), DecText(n + 1) }
+                       <<1633>>, <<65297>>, <<97>>, <<>>, <<48, 48>>, <<49, 32>>, <<48, 10>>, <<49, 10>>, <<10, 48>>, <<48, 13>>, <<48, 0>> } \cup { DecText(n), DecText(n + 1) }
 BadObjectTokens == { <<122, 122>>, <<47, 47>>, <<126, 126>>, <<37, 50, 70>> }
 ScalarTokens == { <<48>>, <<>>, <<97>>, <<45, 49>> }
 
